@@ -45,6 +45,11 @@ Call == /\ verdict = "run" /\ k < Len(Cases[c].events)
            THEN verdict' = "the block was changed by a call" /\ UNCHANGED <<k, st, cols>>
            ELSE IF ev.synth /\ ev.status = "returned" /\ cols # NoCols /\ ev.cols # cols
            THEN verdict' = "a later synthesis has other columns than the first" /\ UNCHANGED <<k, st, cols>>
+           \* availability is a constant of the block (the size of its valid set, established on a fresh block and
+           \* proved equal to the specification's valid set): no earlier call uses any of it up
+           ELSE IF ev.synth /\ ev.status = "returned" /\ ev.exact /\ Cases[c].avail >= 0
+                   /\ ev.count # (IF ev.n < Cases[c].avail THEN ev.n ELSE Cases[c].avail)
+           THEN verdict' = "a synthesis returned another number of sequences than min(requested, available)" /\ UNCHANGED <<k, st, cols>>
            ELSE /\ k' = k + 1 /\ UNCHANGED <<st, verdict>>
                 /\ cols' = IF ev.synth /\ ev.status = "returned" /\ cols = NoCols THEN ev.cols ELSE cols
         /\ UNCHANGED c
